@@ -235,10 +235,24 @@ func (ch c18) runCase(c *core.Ctx, env *hs.Env, L int, rng *core.Rng, idx int) {
 	}
 	cl.C.Send(pg.Startup(st.cpSent))
 	cl.C.Quiesce()
-	cl.C.Send(pg.Password(st.pw))
+	// one password message in eight lacks its terminating NUL: a server may refuse it (the pinned tree does, and
+	// nothing is judged then) - one that hands the password to the validator all the same has handed out a
+	// string like any other
+	unterminated := idx%8 == 5
+	if unterminated {
+		cl.C.Send(pg.Raw('p', []byte(st.pw)))
+	} else {
+		cl.C.Send(pg.Password(st.pw))
+	}
 	if _, ok := cl.C.Quiesce(); !ok {
 		cl.Hung = true
 		hangCheck(c, cl, cs)
+		return
+	}
+	if k := replyKinds(cl.C.Out()); unterminated && (len(k) < 2 || k[len(k)-2:] != "ZI") {
+		c.Count("unterminated_password_messages_refused", 1)
+		cl.C.CloseWrite()
+		cl.C.WaitClosed()
 		return
 	}
 	if k := replyKinds(cl.C.Out()); len(k) < 2 || k[len(k)-2:] != "ZI" {
